@@ -193,12 +193,12 @@ type hcoin struct {
 	confs int64
 }
 
-func (c *hcoin) Hash() *chainhash.Hash   { return &c.hash }
-func (c *hcoin) Index() uint32           { return uint32(c.id) }
-func (c *hcoin) Value() bchutil.Amount   { return bchutil.Amount(c.value) }
-func (c *hcoin) PkScript() []byte        { return nil }
-func (c *hcoin) NumConfs() int64         { return c.confs }
-func (c *hcoin) ValueAge() int64         { return c.confs * c.value }
+func (c *hcoin) Hash() *chainhash.Hash { return &c.hash }
+func (c *hcoin) Index() uint32         { return uint32(c.id) }
+func (c *hcoin) Value() bchutil.Amount { return bchutil.Amount(c.value) }
+func (c *hcoin) PkScript() []byte      { return nil }
+func (c *hcoin) NumConfs() int64       { return c.confs }
+func (c *hcoin) ValueAge() int64       { return c.confs * c.value }
 
 func parseCoins(s string) []coinset.Coin {
 	out := []coinset.Coin{}
